@@ -20,12 +20,10 @@ def digitsToNat? : Str → Option Nat
 Unicode table is std's) -/
 def isUpperChar (c : Char) : Bool := c.isUpper || (0xC0 ≤ c.toNat && c.toNat ≤ 0xDE && c.toNat != 0xD7)
 
-/-- `resolve_temp_id`: `!`, one upper-case character, a number (as `str::parse::<usize>` reads it: an optional
-`+` sign is accepted by Rust; bounds are the machine's, not modelled) -/
+/-- `resolve_temp_id`: `!`, one upper-case character, digits (no sign; bounds are the machine's, not modelled) -/
 def resolveTempId (s : Str) : Option Nat :=
   match s with
-  | '!' :: x :: rest =>
-    if isUpperChar x then (match rest with | '+' :: r => digitsToNat? r | r => digitsToNat? r) else none
+  | '!' :: x :: rest => if isUpperChar x then digitsToNat? rest else none
   | _ => none
 
 /-- the visitor loop on a fresh store: `slots` is the number of slots so far; the result lists where each item
